@@ -38,6 +38,10 @@ void operator delete[](void* p, const std::nothrow_t&) noexcept { std::free(p); 
 extern "C" const char* __asan_default_options() { return "allocator_may_return_null=1:detect_leaks=0"; }
 extern "C" const char* __ubsan_default_options() { return "print_stacktrace=1"; }
 
+#ifdef VERIF_COV
+extern "C" void __gcov_reset(void);
+#endif
+
 using namespace c11;
 
 namespace
@@ -68,6 +72,7 @@ namespace
     bool child = false;          // this process is a runner child
     bool have_crash = false; long crash_idx = -1; int crash_sig = 0; int crash_phase = 0;
     std::string crash_stderr;
+    long cov_cases = 0;
     std::string errfile;
     int errfd = -1;
 
@@ -100,6 +105,10 @@ namespace
     }
     void child_begin_case(long idx)
     {
+#ifdef VERIF_COV
+      // coverage audit: a child that dies later would lose its counters
+      if((++cov_cases % 400) == 0) { __gcov_dump(); __gcov_reset(); }
+#endif
       hdr()->cur = idx;
       hdr()->phase = 0; phase_ptr() = &hdr()->phase; phase_base() = 0;
       if(errfd >= 0) { if(ftruncate(errfd, 0) != 0) {} lseek(errfd, 0, SEEK_SET); }
@@ -426,6 +435,8 @@ namespace
         r.fails.emplace_back(std::string("undocumented exception ") + kind_name(p.kind), "parser terminated with " + p.what + " (" + what() + ")");
       else if(ex == EX_SAME)
         r.fails.emplace_back("rejected", std::string("input must be equivalent to the seed (") + what() + ") but was rejected: " + kind_name(p.kind) + " " + p.what);
+      else if(ex == EX_ACCEPT)
+        r.fails.emplace_back("rejected", std::string("valid input (") + what() + ") was rejected: " + kind_name(p.kind) + " " + p.what);
     }, mesh_rekey(text, reason));
     if(!g_log.child && text != sm.text) c.nontrivial(verif::Hash().str(sm.name).str(text).get());
   }
@@ -495,6 +506,7 @@ int main(int argc, char** argv)
     "S every declared count, dimension, index, type, reference violated one at a time, every element block deleted / duplicated / moved, a comment line (well-formed / unterminated) after every line; "
     "R re-invocation on filled objects: seed then each of its top-level blocks as a second file into the same node/atlas/partition set (existing chart/mesh/mesh part must be rejected and leave the objects unchanged, partitions are added), "
     "block file then seed, block file twice, every (quick: every 3rd) truncation of the seed as second file; "
+    "S20-S22: a content line / unknown markup / misplaced markup / nested copy as first child of every element, every closed markup written as pair (must be equivalent) and with content or child (rejected), every chart kind added to every seed (accepted iff it exists for the dimension); "
     "A every attribute of every markup deleted, every pair of attributes of a markup deleted, all deleted, renamed to an undeclared name sorting before/after (a0,zz,a_,zz_), an undeclared attribute added, given twice -- "
     "mandatory/optional taken from a table in the harness transcribed from the parser classes' attribs() declarations; X scanner grammar: every declaration of 4 attribute names as absent/optional/mandatory x every given subset; "
     "D2 (thorough) every pair of byte substitutions on the smallest seed; the same T/B/L families on the INI seeds. "
@@ -1089,6 +1101,53 @@ int main(int argc, char** argv)
         {
           if(!c.want()) continue;
           run_seq("R truncation-into-filled", {T, T.substr(0, len)}, 0, "seed parsed, then the seed truncated to " + itos((long long)len) + " bytes into the same objects");
+        }
+      }
+      // ---------------------------------------------------------------- S20-S22: content / markup where none belongs, closed vs open form, chart kinds
+      for(size_t li = 0; li < sm.lines.size(); ++li)
+      {
+        const Line& L = sm.lines[li];
+        if(L.in_info || L.tag == "Info") continue;
+        const std::string lno = " (line " + itos((long long)li + 1) + ")";
+        if(L.kind == Line::open)
+        {
+          // S20: directly after the opening markup of every element
+          if(c.want()) sem("S20 content-line-inserted <" + L.tag + ">", T.substr(0, L.next) + "    7 7 7\n" + T.substr(L.next), EX_REJECT, "a content line '7 7 7' as first child of <" + L.tag + ">" + lno);
+          if(c.want()) sem("S20 unknown-markup-inserted <" + L.tag + ">", T.substr(0, L.next) + "    <Zzz />\n" + T.substr(L.next), EX_REJECT, "an unknown closed markup <Zzz /> as first child of <" + L.tag + ">" + lno);
+          if(c.want()) sem("S20 misplaced-markup-inserted <" + L.tag + ">", T.substr(0, L.next) + "    <Vertices>\n    </Vertices>\n" + T.substr(L.next), EX_REJECT, "an empty <Vertices> element as first child of <" + L.tag + ">" + lno);
+          if(c.want()) sem("S20 nested-same-markup <" + L.tag + ">", T.substr(0, L.next) + T.substr(L.beg, L.next - L.beg) + "    </" + L.tag + ">\n" + T.substr(L.next), EX_REJECT, "an empty copy of <" + L.tag + "> as its own first child" + lno);
+        }
+        if(L.kind == Line::closed)
+        {
+          // S21: '<X ... />' written as '<X ...>' '</X>'
+          std::string ln = T.substr(L.beg, L.end - L.beg);
+          size_t sl = ln.rfind('/');
+          std::string open = ln.substr(0, sl); while(!open.empty() && open.back() == ' ') open.pop_back(); open += ">";
+          const std::string indent = ln.substr(0, ln.find('<'));
+          const std::string close = indent + "</" + L.tag + ">";
+          if(c.want()) sem("S21 closed-markup-as-pair <" + L.tag + ">", T.substr(0, L.beg) + open + "\n" + close + T.substr(L.end), EX_SAME, "<" + L.tag + " ... /> written as opening and closing markup" + lno);
+          if(c.want()) sem("S21 closed-markup-with-content <" + L.tag + ">", T.substr(0, L.beg) + open + "\n" + indent + "  1 2\n" + close + T.substr(L.end), EX_REJECT, "<" + L.tag + "> with a content line" + lno);
+          if(c.want()) sem("S21 closed-markup-with-child <" + L.tag + ">", T.substr(0, L.beg) + open + "\n" + indent + "  <Zzz />\n" + close + T.substr(L.end), EX_REJECT, "<" + L.tag + "> with a child markup" + lno);
+        }
+      }
+      {
+        // S22: every chart kind in every seed: kinds of the seed's dimension must be accepted, all others refused
+        struct CK { const char* kind; int dim; const char* xml; };
+        const CK cks[] = {
+          {"Circle", 2, "    <Circle radius=\"1\" midpoint=\"0 0\" />\n"},
+          {"Bezier", 2, "    <Bezier dim=\"2\" size=\"2\" type=\"open\">\n      <Points>\n        0 0 0\n        0 1 0\n      </Points>\n    </Bezier>\n"},
+          {"Sphere", 3, "    <Sphere radius=\"1\" midpoint=\"0 0 0\" />\n"},
+          {"SurfaceMesh", 3, "    <SurfaceMesh verts=\"3\" trias=\"1\">\n      <Vertices>\n        0 0 0\n        1 0 0\n        0 1 0\n      </Vertices>\n      <Triangles>\n        0 1 2\n      </Triangles>\n    </SurfaceMesh>\n"},
+          {"Extrude", 3, "    <Extrude>\n      <Circle radius=\"1\" midpoint=\"0 0\" />\n    </Extrude>\n"},
+          {"ExtrudeBezier", 3, "    <Extrude offset=\"0 0 1\">\n      <Bezier dim=\"2\" size=\"2\" type=\"open\">\n        <Points>\n          0 0 0\n          0 1 0\n        </Points>\n      </Bezier>\n    </Extrude>\n"},
+          {"Extrude(Sphere)", 0, "    <Extrude>\n      <Sphere radius=\"1\" midpoint=\"0 0 0\" />\n    </Extrude>\n"}};
+        const size_t at = sm.lines[0].next;
+        for(auto& ck : cks)
+        {
+          if(!c.want()) continue;
+          const bool legal = (ck.dim == sdim);
+          sem(std::string("S22 chart-kind ") + ck.kind + (legal ? " legal" : " illegal"), T.substr(0, at) + "  <Chart name=\"zz:cov\">\n" + ck.xml + "  </Chart>\n" + T.substr(at), legal ? EX_ACCEPT : EX_REJECT,
+            std::string("a <") + ck.kind + "> chart added to a file of dimension " + itos(sdim));
         }
       }
       // ---------------------------------------------------------------- S19: comment lines
